@@ -252,8 +252,8 @@ def execute(ctx):
     def outcome():
         if st.get('forced') is not None and dongle.results and not st.get('forced_on'):
             # negotiation finished when the driver thread has safelink or gave up: the next frames are data frames
-            drv = st.get('drv')
-            if drv is not None and drv._thread is not None and (drv._thread._has_safelink or len(dongle.results) >= 10):
+            probe = bytes([0xFF, 0x05, 0x01])
+            if any(r[3] == probe and r[1] and bytes(r[4]) == probe for r in dongle.results) or len(dongle.results) >= 10:
                 air.forced = st['forced']
                 st['forced_on'] = True
         return orig_outcome()
@@ -288,7 +288,7 @@ def oracle(ctx, plan, dongle, peer, st, errors, accepted, received, downs, order
     if echoed and data_frames and not touched and len(data_frames) > 3:
         ctx.violation('5', 'safelink-confirmed-but-unused', 'probe echoed but no frame carries sequence bits')
     if drv is not None and results:
-        nr = getattr(drv, 'needs_resending', None)
+        nr = st['needs_resending'] if 'needs_resending' in st else getattr(drv, 'needs_resending', None)
         if nr is not None and nr != (not echoed) and len(nego) >= 1 and (echoed or len(nego) >= 10):
             ctx.violation('5', 'needs_resending-wrong', 'needs_resending=%r although safelink %s' % (nr, 'confirmed' if echoed
                                                                                                else 'not confirmed'))
